@@ -94,6 +94,10 @@ func NewBackend(name string, cfg Config, pol Policy) *Backend {
 	for i := 0; i < cfg.Filler; i++ {
 		ecs.TypeID(b.W, fillerType(i))
 	}
+	// as many filler resource types, so that the resources in use get IDs in every mask word
+	for i := 0; i < cfg.Filler; i++ {
+		ecs.ResourceTypeID(b.W, fillerType(i))
+	}
 	for i, c := range cfg.Perm {
 		if i >= len(cfg.Perm)-cfg.Late {
 			break // registered when first used
